@@ -725,7 +725,7 @@ def check_c14(tier, seed):
         rc, out = C.run(["go", "build", "-gcflags=-e"] + ["./m%d/" % c["k"] for c in written], cwd=ws.root, extra_env=ws.env(), timeout=1200)
         errs = collections.defaultdict(list)
         for l in out.splitlines():
-            m = re.match(r"^(?:\./)?m(\d+)/[\w.]+:\d+:\d+: (.*)", l)
+            m = re.match(r"^\s*(?:\./)?m(\d+)/[\w.]+:\d+:\d+: (.*)", l)
             if m:
                 errs[int(m.group(1))].append(m.group(2))
         if rc != 0 and not errs:
@@ -783,6 +783,25 @@ def check_c14(tier, seed):
                 report(c, kind, "the migrated file does not compile in the source package (%s): %s" % (kind, "; ".join(e[:3])))
             else:
                 stats["compiles"] += 1
+        # ---- (2b) recorded finding: a FieldsOf accessor has to spell the field's type; when that type lives in an internal
+        # package of another module tree (reachable for the user only through a public alias) the output imports it
+        kf = {"kf/ext/internal/in/in.go": "package in\n\ntype Leaf struct{ N int }\n\ntype Cfg struct {\n\tA *Leaf\n\tB string\n}\n",
+              "kf/ext/x.go": "package ext\n\nimport \"e2e/kf/ext/internal/in\"\n\ntype Leaf = in.Leaf\n\ntype Cfg = in.Cfg\n\nfunc NewCfg() *Cfg { return &Cfg{A: &Leaf{N: 1}} }\n",
+              "kfm/types.go": "package kfm\n\nimport \"e2e/kf/ext\"\n\ntype App struct{ N int }\n\nfunc NewApp(l *ext.Leaf) *App { return &App{N: l.N} }\n",
+              "kfm/wire.go": "//go:build wireinject\n\npackage kfm\n\nimport (\n\t\"e2e/kf/ext\"\n\t\"github.com/google/wire\"\n)\n\nfunc Init() *App {\n\twire.Build(ext.NewCfg, wire.FieldsOf(new(*ext.Cfg), \"A\"), NewApp)\n\treturn nil\n}\n"}
+        _write_files(ws.root, kf)
+        kout = os.path.join(ws.root, "kfm", "kessoku.go")
+        rc_k, out_k = C.run([cli, "migrate", "-o", kout, "./kfm"], cwd=ws.root, extra_env=ws.env(), timeout=300)
+        if rc_k == 0 and os.path.exists(kout):
+            os.remove(os.path.join(ws.root, "kfm", "wire.go"))
+            rc_b, out_b = C.run(["go", "build", "./kfm/"], cwd=ws.root, extra_env=ws.env(), timeout=600)
+            rp = {"kind": "input", "failing_input": kf, "migrated": open(kout).read(), "build": out_b[-600:],
+                  "reproduce": "write the sources into a module, run `kessoku migrate -o kfm/kessoku.go ./kfm`, delete kfm/wire.go, `go build ./kfm/`"}
+            if rc_b != 0 and "use of internal package" in out_b:
+                R.finding("C14-fieldsof-field-type-in-internal-package", "the FieldsOf accessor spells the field's type from its declaring (internal) package: %s" % out_b.strip().splitlines()[-1][:200], rp)
+            elif rc_b != 0:
+                R.violation("FieldsOf on a struct named through an alias: the migrated file does not compile: %s" % out_b.strip().splitlines()[-1][:300], rp)
+        stats["alias-of-internal-struct-probe-exit"] = rc_k
         # ---- (3) failure kinds: non-zero exit, no output file (fresh path) / untouched file (existing path)
         fail_rows = []
         for kind in W14.FAIL_KINDS:
